@@ -288,10 +288,10 @@ pub fn def(tier: Tier) -> PropertyDef {
 	}
 	checks.push(enumerate("plain_types", |_, _| Box::new(std::iter::once(0u8)), run_plain));
 	for i in 0..2 {
-		checks.push(pt(&format!("window_json_{i}"), tier.pick(15000, 150000), window_json_strategy(), run_window_json));
+		checks.push(pt(&format!("window_json_{i}"), tier.pick(60000, 300000), window_json_strategy(), run_window_json));
 	}
 	let smm = (proptest::collection::vec(prop_oneof![Just(-0.0f64), Just(0.0), -3.0f64..3.0, Just(1.0), Just(2.0)], 0..12), 0u32..14, proptest::collection::vec(prop_oneof![Just(0.0f64), -3.0f64..3.0, Just(1.0)], 0..20)).prop_map(|(buf, index, cont)| SmmJson { buf, index, cont });
-	checks.push(pt("smm_json", tier.pick(15000, 150000), smm, run_smm_json));
+	checks.push(pt("smm_json", tier.pick(60000, 300000), smm, run_smm_json));
 	checks.extend(crate::fuzz_entry::corpus_checks("C13"));
 	PropertyDef {
 		id: "C13",
